@@ -36,7 +36,7 @@ ROOT_WEIGHTED = vocab.OBJ_TYPES + ["map"] * 8 + ["layer"] * 6 + ["class"] * 4 + 
 
 
 def names_of(msgs):
-    return sorted(m["message"].replace("ERROR: Invalid value in ", "") for m in msgs)
+    return sorted(m["message"].split()[-1].upper() for m in msgs)   # the message names the keyword / object: its last word
 
 
 def recase_values(d, ch):
